@@ -43,6 +43,18 @@ Theorem C17_main : forall d u, supported d u = true -> sound_on d u.
 Proof. exact main_sound. Qed.
 Print Assumptions C17_main.
 
+(* stronger form: on the supported fragment the model of Transform::transform equals the
+   specification function, whatever the extra fuel ([transform_expand], the entry point used
+   by the other packages, = transform_apply_fuel): the R7RS expansion when a rule
+   R7RS-matches, a reported error exactly when none does.  Sound, complete, terminating.
+   (hypotheses satisfiable: C17_supported_nonvacuous below) *)
+Theorem C17_supported_exact : forall d tr u extra,
+  transform_try_new d = Ok tr -> supported_tr tr u = true ->
+  transform_apply_fuel extra tr u =
+  match spec_of_transform tr u with SpecOk c => Ok c | _ => Err E_OTHER end.
+Proof. exact apply_supported. Qed.
+Print Assumptions C17_supported_exact.
+
 (* C17_expand_sound (formerly OPEN as C17_expand_sound_stmt): expand on S_tmpl equals the
    specification's instantiation, within the fuel the entry point hands it, and leaves every
    cursor reset.  Proofs/ExpandProofs.v: ell_run (one `x ...` group: one item per round of
